@@ -58,7 +58,10 @@ HRecv(e) ==
        IN /\ kc' = [kc EXCEPT ![s] = AfterValidate(c, rec, e)]
           /\ okp' = IF v = "accept" THEN okp \cup {e.pid} ELSE okp
           \* a valid BADCOOKIE makes the query leave this connection (it is re-sent; after the third one over TCP)
-          /\ kq' = IF v = "badcookie" THEN [kq EXCEPT ![e.qid].ctries = @ + 1, ![e.qid].fd = 0] ELSE kq
+          \* a response that passed the cookie checks ends this transmission too: the query completes or is requeued
+          \* (truncation, error rcode, EDNS downgrade) and is off this connection until it is transmitted again
+          /\ kq' = IF v = "badcookie" THEN [kq EXCEPT ![e.qid].ctries = @ + 1, ![e.qid].fd = 0]
+                   ELSE IF v = "accept" THEN [kq EXCEPT ![e.qid].fd = 0] ELSE kq
           /\ UNCHANGED <<kcfg, know, kfd>> /\ Acc
 
 HCbb(e) ==
